@@ -148,6 +148,9 @@ func addOverlappingTwin(p *synth.Project) {
 		if c.Methods[mi].Name == "Target" {
 			target = &c.Methods[mi]
 		}
+		if c.Methods[mi].Name == "TargetTwin" {
+			return // P21 brings its own twin
+		}
 	}
 	if target == nil || !target.IsEndpoint() {
 		return
